@@ -183,7 +183,7 @@ class BLOB(Element):
     def to_set_message(self):
         if self.value is None:
             return self.set_message_class(
-                name=self._definition.name, value=None, format=None, size=None
+                name=self._definition.name, value=None, format="", size=0
             )
         return self.set_message_class(
             name=self._definition.name,
